@@ -102,3 +102,73 @@ func ZZ_C12_fresh_schema() {
 	zzAssert((base.Data == nil) == (again.Data == nil) && (base.Data == nil || zzDeepEqual(base.Data, again.Data)), "data differs between two builds of the same schema")
 	zzCover("end")
 }
+
+var zzC12Names = []string{"ab", "aB", "Ab", "AB", "ba", "abc"}
+var zzC12Typos = []string{"aa", "bb", "a", "ac", "Abc"}
+
+// ZZ_C12_suggestions: "did you mean" lists for a misspelt field, type or
+// argument name, on schemas whose names are close to one another (differing
+// in letter case, by one letter, by a transposition): the same message under
+// every map iteration order.
+func ZZ_C12_suggestions() {
+	kind := zzChoice("kind", 3)
+	var names []string
+	last := -1
+	for i := 0; i < 3; i++ {
+		ni := zzChoice("name"+zzItoa(i), len(zzC12Names))
+		zzAssume(ni > last) // every 3-subset of the names once
+		last = ni
+		names = append(names, zzC12Names[ni])
+	}
+	typo := zzC12Typos[zzChoice("typo", len(zzC12Typos))]
+	for _, m := range names {
+		zzAssume(m != typo)
+	}
+	build := func() Schema {
+		fields := Fields{}
+		var types []Type
+		switch kind {
+		case 0:
+			for _, n := range names {
+				fields[n] = &Field{Type: Int}
+			}
+		case 1:
+			fields["f"] = &Field{Type: Int}
+			for _, n := range names {
+				types = append(types, NewInputObject(InputObjectConfig{Name: n, Fields: InputObjectConfigFieldMap{"x": &InputObjectFieldConfig{Type: Int}}}))
+			}
+		default:
+			args := FieldConfigArgument{}
+			for _, n := range names {
+				args[n] = &ArgumentConfig{Type: Int}
+			}
+			fields["f"] = &Field{Type: Int, Args: args}
+		}
+		s, err := NewSchema(SchemaConfig{Query: NewObject(ObjectConfig{Name: "Query", Fields: fields}), Types: types})
+		zzAssert(err == nil, "schema")
+		return s
+	}
+	var text string
+	switch kind {
+	case 0:
+		text = "{ " + typo + " }"
+	case 1:
+		text = "query($v: " + typo + "){ f }"
+	default:
+		text = "{ f(" + typo + ": 1) }"
+	}
+	schema := build()
+	base := Do(Params{Schema: schema, RequestString: text})
+	zzAssert(len(base.Errors) > 0, "the misspelt name was accepted")
+	zzMapOrder(true, zzParam("D", 1))
+	var again *Result
+	if zzParam("FRESH", 0) == 1 && zzChoice("fresh", 2) == 1 {
+		s2 := build()
+		again = Do(Params{Schema: s2, RequestString: text})
+	} else {
+		again = Do(Params{Schema: schema, RequestString: text})
+	}
+	zzMapOrder(false, 0)
+	zzAssert(zzErrorsEqual(base, again), "errors differ between two executions of the same request")
+	zzCover("end")
+}
